@@ -167,9 +167,14 @@ impl<'a, 'b> Mul<&'b Value> for &'a Value {
 
     fn mul(self, other: &Value) -> Result<Value, String> {
         match (self, other) {
-            (&Value::Number(ref left), &Value::Number(ref right)) => (left * right)
-                .ok_or_else(|| "Bug: Mul should not fail".to_string())
-                .map(Value::Number),
+            (&Value::Number(ref left), &Value::Number(ref right)) => {
+                if left.unit.checked_mul(&right.unit).is_none() {
+                    return Err("Dimension exponent is too large".to_string());
+                }
+                (left * right)
+                    .ok_or_else(|| "Bug: Mul should not fail".to_string())
+                    .map(Value::Number)
+            }
             (&Value::Number(ref co), &Value::Substance(ref sub))
             | (&Value::Substance(ref sub), &Value::Number(ref co)) => {
                 (sub * co).map(Value::Substance)
@@ -184,9 +189,14 @@ impl<'a, 'b> Div<&'b Value> for &'a Value {
 
     fn div(self, other: &Value) -> Result<Value, String> {
         match (self, other) {
-            (&Value::Number(ref left), &Value::Number(ref right)) => (left / right)
-                .ok_or_else(|| "Division by zero".to_string())
-                .map(Value::Number),
+            (&Value::Number(ref left), &Value::Number(ref right)) => {
+                if left.unit.checked_mul(&right.unit.clone().recip()).is_none() {
+                    return Err("Dimension exponent is too large".to_string());
+                }
+                (left / right)
+                    .ok_or_else(|| "Division by zero".to_string())
+                    .map(Value::Number)
+            }
             (&Value::Substance(ref sub), &Value::Number(ref co)) => {
                 (sub / co).map(Value::Substance)
             }
